@@ -351,8 +351,33 @@ func (e *histEnv) labelsBefore(op Op) []string {
 		if !strings.HasPrefix(n, "/") {
 			add("relative-name")
 		}
+		// ".." after a symlinked component: BackupFS cleans lexically before it resolves (D14)
+		comps := strings.Split(n, "/")
+		prefix := ""
+		for _, cmp := range comps {
+			if cmp == ".." && prefix != "" {
+				for _, anc := range chainOf(path.Clean("/" + prefix)) {
+					if fi, err := os.Lstat(baseRoot + anc); err == nil && fi.Mode()&fs.ModeSymlink != 0 {
+						add("link-topology")
+					}
+				}
+			}
+			if cmp != "" {
+				prefix = prefix + "/" + cmp
+			}
+		}
 	}
 	lst := func(p string) fs.FileInfo { fi, _ := os.Lstat(real(p)); return fi }
+	if op.K == "symlink" && !strings.HasPrefix(op.A[0], "/") && strings.Contains(op.A[0], "..") {
+		// a relative target with ".." created below a symlinked parent: the layers check it lexically
+		// from the unresolved link directory, BackupFS hands them the resolved one
+		np := path.Clean("/" + op.A[1])
+		for _, anc := range chainOf(path.Dir(np)) {
+			if fi := lst(anc); fi != nil && fi.Mode()&fs.ModeSymlink != 0 {
+				add("link-topology")
+			}
+		}
+	}
 	switch op.K {
 	case "rename":
 		if fi := lst(op.A[0]); fi != nil && fi.IsDir() {
@@ -389,6 +414,17 @@ func (e *histEnv) labelsAfter(op Op) []string {
 		}
 	}
 	if op.K == "symlink" || op.K == "rename" {
+		// link chains built during the transaction (D14)
+		var cur []Entry
+		d := e.rc.Dump(e.baseSub)
+		for i := 0; i+6 < len(d); i += 7 {
+			cur = append(cur, Entry{Path: d[i], Kind: d[i+1], Data: d[i+6]})
+		}
+		for _, l := range treeLabels(cur) {
+			if l == "link-topology" {
+				ls = append(ls, "new-link-topology")
+			}
+		}
 		// a link now stands at a path below which tracked paths lie
 		np := path.Clean("/" + op.A[1])
 		if cur, err := os.Lstat(baseRoot + np); err == nil && cur.Mode()&fs.ModeSymlink != 0 {
@@ -497,9 +533,13 @@ func runHistCase(c *HistCase, prop string) (*caseOut, error) {
 		}
 		out.b.Add(id+" faults", line(f...), "ok")
 	}
+	static := map[string]bool{} // labels of the initial tree
 	for _, l := range treeLabels(c.Tree) {
 		out.labels[l] = true
+		static[l] = true
 	}
+	stepLabels := map[string]bool{} // labels raised by the current step only
+	twinDiverged := false
 	modelBase, modelBak := modelRoot+e.baseSub, modelRoot+e.bakSub
 	out.b.Add(id+" init-base", line("os.tree", modelBase), line(e.rc.Dump(e.baseSub)...))
 	e.trace(false)
@@ -545,6 +585,24 @@ func runHistCase(c *HistCase, prop string) (*caseOut, error) {
 		e.rc.MarkStart()
 		twin, _ = backupfs.NewPrefixFS(backupfs.NewOSFS(), e.rc.Root+"/t/twin")
 	}
+	// the twin-tree oracle judges one step at a time: a divergence is attributed to a recorded class
+	// only if the tree or this very operation falls into it; once the trees have diverged the
+	// comparison stops (everything after is a consequence)
+	violStep := func(p, what string) {
+		v := Violation{Property: p, What: what, Case: c}
+		m := map[string]bool{}
+		for k := range static {
+			m[k] = true
+		}
+		for k := range stepLabels {
+			m[k] = true
+		}
+		if k := knownClass(m); k != "" {
+			v.Known = k
+		}
+		out.viol = append(out.viol, v)
+		twinDiverged = true
+	}
 	// C02: crash-point oracle, evaluated before every primitive call of a transaction
 	var originals []string
 	if prop == "C02" || prop == "" {
@@ -567,8 +625,13 @@ func runHistCase(c *HistCase, prop string) (*caseOut, error) {
 		switch {
 		case st.Op != nil:
 			op := *st.Op
+			stepLabels = map[string]bool{}
 			for _, l := range e.labelsBefore(op) {
 				out.labels[l] = true
+				stepLabels[l] = true
+				if l == "relative-name" {
+					static[l] = true // aliasing keys stay in the tracking state for the rest of the case
+				}
 			}
 			var baseBefore []string
 			if len(c.Faults) > 0 {
@@ -589,13 +652,15 @@ func runHistCase(c *HistCase, prop string) (*caseOut, error) {
 					out.count("c16.checked")
 				}
 			}
-			if twin != nil {
+			if twin != nil && !twinDiverged {
 				tres := execOp(e.rc, twin, op)
 				out.count("twin.compared")
 				okB, okT := res[0] == "ok", tres[0] == "ok"
 				for _, l := range e.labelsTwin(op) {
 					out.labels[l] = true
+					stepLabels[l] = true
 				}
+				viol := violStep
 				if op.K == "removeall" && okB && !okT && tres[1] == "notDir" {
 					// adopted reading (DESIGN C03): "RemoveAll of a path that does not exist succeeds"
 					// covers every path name resolution cannot reach (ENOENT and ENOTDIR)
@@ -626,6 +691,10 @@ func runHistCase(c *HistCase, prop string) (*caseOut, error) {
 				}
 			}
 			for _, l := range e.labelsAfter(op) {
+				if l == "new-link-topology" {
+					l = "link-topology"
+					static[l] = true // the topology stays for the rest of the case
+				}
 				out.labels[l] = true
 			}
 		case st.Do == "rollback":
@@ -925,7 +994,8 @@ func genHistCase(r *RNG, g HistGen, umask int) *HistCase {
 		}
 	}
 	if g.Layering == "nested" {
-		paths = append(paths, c.Loc, c.Loc+"/x", path.Dir(c.Loc))
+		paths = append(paths, c.Loc, c.Loc+"/x")
+		paths = append(paths, chainOf(c.Loc)...) // every ancestor of the location
 	}
 	if g.Meta {
 		og.Mutating = []string{"chmod", "chown", "lchown", "chtimes", "write", "creat", "chmod", "chown"}
